@@ -116,6 +116,7 @@ theorem stable_step (v : Variant) (fs : Fs) (op : Op) (k : Path) (val : Bytes)
   | ret => exact ⟨h1, h2, h3, h4, h5⟩
   | mkdir d => exact ⟨h1, h2, h3, h4, h5⟩
   | close f => exact ⟨h1, h2, h3, h4, h5⟩
+  | kill => exact ⟨h1, h2, h3, h4, h5⟩
   | creatTrunc f =>
     have hne : k ≠ f := by simpa [touches] using hk
     simp only [Fs.step]
@@ -171,6 +172,7 @@ theorem absent_step (v : Variant) (fs : Fs) (op : Op) (k : Path)
   | ret => exact ⟨h1, h2⟩
   | mkdir d => exact ⟨h1, h2⟩
   | close f => exact ⟨h1, h2⟩
+  | kill => exact ⟨h1, h2⟩
   | fsyncDir d => exact ⟨h1, altOf_filter_parent fs d k h2⟩
   | creatTrunc f =>
     have hne : k ≠ f := by simpa [touches] using hk
@@ -288,14 +290,14 @@ theorem recover_absent {fs : Fs} {k : Path} (h : Absent fs k) :
 /-- every key other than the one being written (and other than the scratch files of the set in
     progress) is exactly where the completed sets left it; scratch paths hold no completed key -/
 def Inv (s : St) : Prop :=
-  (∀ k, curKey s ≠ some k → k ∉ s.scratch →
+  (∀ k, curKey s ≠ some k → k ∉ s.scratch → k ∉ s.dirty →
     match s.done.lookup k with
     | some val => Stable s.fs k val
     | none => Absent s.fs k) ∧
   (∀ p ∈ s.scratch, s.done.lookup p = none)
 
 theorem inv_init : Inv init := by
-  refine ⟨fun k _ _ => ?_, fun p hp => by simp [init] at hp⟩
+  refine ⟨fun k _ _ _ => ?_, fun p hp => by simp [init] at hp⟩
   simp [init, names, Absent, Fs.altOf]
 
 theorem lookup_cons_ite {α : Type} (k a : Path) (b : α) (l : List (Path × α)) :
@@ -306,16 +308,16 @@ theorem lookup_cons_ite {α : Type} (k a : Path) (b : α) (l : List (Path × α)
 
 /-- frame step shared by all file-system operations -/
 theorem inv_frame (v : Variant) (s : St) (op : Op) (hnb : ∀ k val, op ≠ .begin k val) (hnr : op ≠ .ret)
-    (h : Inv s)
+    (hnk : op ≠ .kill) (h : Inv s)
     (hscr : ∀ p ∈ scratchStep (curKey s) s.scratch op, p ∈ s.scratch ∨ s.done.lookup p = none)
     (htouch : ∀ k, curKey s ≠ some k → k ∉ scratchStep (curKey s) s.scratch op → k ∉ touches op ∧ k ∉ s.scratch) :
     Inv (step v s op) := by
   have hstep : step v s op = { s with fs := s.fs.step v op, scratch := scratchStep (curKey s) s.scratch op } := by
-    cases op <;> first | rfl | exact absurd rfl (hnb _ _) | exact absurd rfl hnr
+    cases op <;> first | rfl | exact absurd rfl (hnb _ _) | exact absurd rfl hnr | exact absurd rfl hnk
   rw [hstep]
-  refine ⟨fun k hk hks => ?_, fun p hp => ?_⟩
+  refine ⟨fun k hk hks hkd => ?_, fun p hp => ?_⟩
   · obtain ⟨ht, hs⟩ := htouch k hk hks
-    have := h.1 k hk hs
+    have := h.1 k hk hs hkd
     simp only at this ⊢
     split at this
     · next val heq => exact stable_step v _ _ _ _ ht this
@@ -331,8 +333,8 @@ theorem inv_step (v : Variant) (s : St) (op : Op) (hok : ok s op = true) (h : In
     simp only [ok, Bool.and_eq_true, Option.isNone_iff_eq_none, List.isEmpty_iff] at hok
     have hcur : s.cur = none := hok.1.1.1.1.1
     have hscr : s.scratch = [] := hok.2
-    refine ⟨fun k _ _ => ?_, fun p hp => ?_⟩
-    · have := h.1 k (by simp [curKey, hcur]) (by simp [hscr])
+    refine ⟨fun k _ _ hkd => ?_, fun p hp => ?_⟩
+    · have := h.1 k (by simp [curKey, hcur]) (by simp [hscr]) (by simpa [step] using hkd)
       simpa [step] using this
     · simp [step, hscr] at hp
   | ret =>
@@ -342,7 +344,7 @@ theorem inv_step (v : Variant) (s : St) (op : Op) (hok : ok s op = true) (h : In
       obtain ⟨k0, val0⟩ := kv
       simp only [ok, hc, Bool.and_eq_true, List.all_eq_true] at hok
       have hst : Stable s.fs k0 val0 := stable_of_durableAs hok.1.2
-      refine ⟨fun k _ _ => ?_, fun p hp => by simp [step, hc] at hp⟩
+      refine ⟨fun k _ _ hkd => ?_, fun p hp => by simp [step, hc] at hp⟩
       simp only [step, hc, lookup_cons_ite]
       by_cases hk : k = k0
       · subst hk; simpa using hst
@@ -350,20 +352,36 @@ theorem inv_step (v : Variant) (s : St) (op : Op) (hok : ok s op = true) (h : In
         by_cases hs : k ∈ s.scratch
         · rw [h.2 k hs]
           exact absent_of_durablyAbsent (hok.2 k hs)
-        · exact h.1 k (by simp [curKey, hc]; exact fun e => hk e.symm) hs
+        · have hkd' : k ∉ s.dirty := by
+            intro hin
+            apply hkd
+            simp only [step, hc, List.mem_filter]
+            exact ⟨hin, by simpa using hk⟩
+          exact h.1 k (by simp [curKey, hc]; exact fun e => hk e.symm) hs hkd'
+  | kill =>
+    refine ⟨fun k _ _ hkd => ?_, fun p hp => by simp [step] at hp⟩
+    have hkd' : k ∉ (curKey s).toList ++ s.scratch ++ s.dirty := by simpa [step] using hkd
+    simp only [List.mem_append, not_or] at hkd'
+    have hcur : curKey s ≠ some k := by
+      intro e; exact hkd'.1.1 (by simp [e])
+    have := h.1 k hcur hkd'.1.2 hkd'.2
+    simp only [step] at this ⊢
+    split at this
+    · next val heq => exact stable_step v _ .kill _ _ (by simp [touches]) this
+    · next heq => exact absent_step v _ .kill _ (by simp [touches]) this
   | mkdir d =>
-    exact inv_frame v s _ (by simp) (by simp) h (fun p hp => Or.inl hp)
+    exact inv_frame v s _ (by simp) (by simp) (by simp) h (fun p hp => Or.inl hp)
       (fun k _ hks => ⟨by simp [touches], hks⟩)
   | close f =>
-    exact inv_frame v s _ (by simp) (by simp) h (fun p hp => Or.inl hp)
+    exact inv_frame v s _ (by simp) (by simp) (by simp) h (fun p hp => Or.inl hp)
       (fun k _ hks => ⟨by simp [touches], hks⟩)
   | fsyncDir d =>
-    exact inv_frame v s _ (by simp) (by simp) h (fun p hp => Or.inl hp)
+    exact inv_frame v s _ (by simp) (by simp) (by simp) h (fun p hp => Or.inl hp)
       (fun k _ hks => ⟨by simp [touches], hks⟩)
   | creatTrunc f =>
     simp only [ok, Bool.and_eq_true, Bool.or_eq_true, Option.isNone_iff_eq_none] at hok
     have hall := hok.1.1.1.2
-    refine inv_frame v s _ (by simp) (by simp) h ?_ ?_
+    refine inv_frame v s _ (by simp) (by simp) (by simp) h ?_ ?_
     · intro p hp
       simp only [scratchStep] at hp
       split at hp
@@ -392,7 +410,7 @@ theorem inv_step (v : Variant) (s : St) (op : Op) (hok : ok s op = true) (h : In
   | write f d =>
     simp only [ok, allowed, Bool.and_eq_true, Bool.or_eq_true, beq_iff_eq, List.contains_eq_mem,
       decide_eq_true_eq] at hok
-    refine inv_frame v s _ (by simp) (by simp) h (fun p hp => Or.inl hp) (fun k hk hks => ⟨?_, hks⟩)
+    refine inv_frame v s _ (by simp) (by simp) (by simp) h (fun p hp => Or.inl hp) (fun k hk hks => ⟨?_, hks⟩)
     simp only [touches, List.mem_singleton]
     rintro rfl
     rcases hok.1 with ha | ha
@@ -401,7 +419,7 @@ theorem inv_step (v : Variant) (s : St) (op : Op) (hok : ok s op = true) (h : In
   | fsyncFile f =>
     simp only [ok, allowed, Bool.and_eq_true, Bool.or_eq_true, beq_iff_eq, List.contains_eq_mem,
       decide_eq_true_eq] at hok
-    refine inv_frame v s _ (by simp) (by simp) h (fun p hp => Or.inl hp) (fun k hk hks => ⟨?_, hks⟩)
+    refine inv_frame v s _ (by simp) (by simp) (by simp) h (fun p hp => Or.inl hp) (fun k hk hks => ⟨?_, hks⟩)
     simp only [touches, List.mem_singleton]
     rintro rfl
     rcases hok.1 with ha | ha
@@ -410,7 +428,7 @@ theorem inv_step (v : Variant) (s : St) (op : Op) (hok : ok s op = true) (h : In
   | unlink f =>
     simp only [ok, allowed, Bool.and_eq_true, Bool.or_eq_true, beq_iff_eq, List.contains_eq_mem,
       decide_eq_true_eq] at hok
-    refine inv_frame v s _ (by simp) (by simp) h (fun p hp => Or.inl hp) (fun k hk hks => ⟨?_, hks⟩)
+    refine inv_frame v s _ (by simp) (by simp) (by simp) h (fun p hp => Or.inl hp) (fun k hk hks => ⟨?_, hks⟩)
     simp only [touches, List.mem_singleton]
     rintro rfl
     rcases hok.1.1 with ha | ha
@@ -421,7 +439,7 @@ theorem inv_step (v : Variant) (s : St) (op : Op) (hok : ok s op = true) (h : In
       decide_eq_true_eq] at hok
     have ha := hok.1.1.1.1.1.1.1
     have hb := hok.1.1.1.1.1.1.2
-    refine inv_frame v s _ (by simp) (by simp) h (fun p hp => Or.inl hp) (fun k hk hks => ⟨?_, hks⟩)
+    refine inv_frame v s _ (by simp) (by simp) (by simp) h (fun p hp => Or.inl hp) (fun k hk hks => ⟨?_, hks⟩)
     simp only [touches, List.mem_cons, List.mem_singleton, List.not_mem_nil, or_false]
     rintro (rfl | rfl)
     · rcases ha with h1 | h1
@@ -473,13 +491,14 @@ theorem scratch_nil_of_idle (v : Variant) : ∀ (tr : List Op) (s s' : St),
       | ret => cases hcs : s.cur <;> simp [step, hcs]
       | mkdir d =>
         have : s.cur = none := by simpa [step] using hc1
-        simp [ok, this] at hok
+        simpa [step, scratchStep] using hi this
+      | kill => simp [step]
       | creatTrunc f =>
         have : s.cur = none := by simpa [step] using hc1
         simp [ok, this] at hok
       | fsyncDir d =>
         have : s.cur = none := by simpa [step] using hc1
-        simp [ok, this] at hok
+        simpa [step, scratchStep] using hi this
       | write f d =>
         have hn : s.cur = none := by simpa [step] using hc1
         have := hi hn
@@ -520,15 +539,15 @@ theorem WF_prefix (v : Variant) (pre suf : List Op) (h : WF v (pre ++ suf) = tru
 
 /-- the machine's ghost fields are the begin/ret/creat bookkeeping of the trace, nothing else -/
 theorem ghostStep_step (v : Variant) (s : St) (op : Op) :
-    ghostStep ⟨s.cur, s.done, s.scratch⟩ op =
-      ⟨(step v s op).cur, (step v s op).done, (step v s op).scratch⟩ := by
+    ghostStep ⟨s.cur, s.done, s.scratch, s.dirty⟩ op =
+      ⟨(step v s op).cur, (step v s op).done, (step v s op).scratch, (step v s op).dirty⟩ := by
   cases op <;> first
     | rfl
     | (cases hc : s.cur <;> simp [ghostStep, step, hc])
 
 theorem ghost_run (v : Variant) : ∀ (tr : List Op) (s : St),
-    ghost ⟨s.cur, s.done, s.scratch⟩ tr =
-      ⟨(run v s tr).cur, (run v s tr).done, (run v s tr).scratch⟩ := by
+    ghost ⟨s.cur, s.done, s.scratch, s.dirty⟩ tr =
+      ⟨(run v s tr).cur, (run v s tr).done, (run v s tr).scratch, (run v s tr).dirty⟩ := by
   intro tr
   induction tr with
   | nil => intro s; rfl
@@ -553,25 +572,27 @@ def crashAfter (v : Variant) (pre : List Op) : List Image := crash (run v init p
     failure) if no set of it has completed. -/
 theorem crash_safety_core (v : Variant) (tr pre suf : List Op) (htr : tr = pre ++ suf)
     (hwf : WF v tr = true) :
-    ∀ c ∈ crashAfter v pre, ∀ k, inProgress pre ≠ some k → k ∉ scratchOf pre →
+    ∀ c ∈ crashAfter v pre, ∀ k, inProgress pre ≠ some k → k ∉ scratchOf pre → k ∉ dirtyOf pre →
       recover c k = lastCompleted pre k := by
   subst htr
   have hpre : (runWF v init pre).isSome = true := WF_prefix v pre suf hwf
   obtain ⟨s, hs⟩ := Option.isSome_iff_exists.mp hpre
   have hrun : s = run v init pre := runWF_eq_run v pre init s hs
   have hinv : Inv s := inv_runWF v pre init s hs inv_init
-  have hg : ghost {} pre = ⟨s.cur, s.done, s.scratch⟩ := by
+  have hg : ghost {} pre = ⟨s.cur, s.done, s.scratch, s.dirty⟩ := by
     rw [hrun]; exact ghost_run v pre init
-  intro c hc k hk hks
+  intro c hc k hk hks hkd
   simp only [crashAfter, ← hrun] at hc
   have hcur : curKey s ≠ some k := by
     simpa [inProgress, curKey, hg] using hk
   have hscr : k ∉ s.scratch := by
     simpa [scratchOf, hg] using hks
+  have hdirty : k ∉ s.dirty := by
+    simpa [dirtyOf, hg] using hkd
   have hdone : lastCompleted pre k = s.done.lookup k := by
     simp [lastCompleted, hg]
   rw [hdone]
-  have := hinv.1 k hcur hscr
+  have := hinv.1 k hcur hscr hdirty
   split at this
   · next val heq => rw [heq]; exact recover_stable this c hc
   · next heq => rw [heq]; exact recover_absent this c hc
@@ -580,19 +601,20 @@ theorem crash_safety_core (v : Variant) (tr pre suf : List Op) (htr : tr = pre +
     not currently being rewritten, reads its last completed value on every crash image of every
     later instant; (2) an interrupted set harms no other key: every key other than the one in
     progress reads what it read before the set started — its last completed value, or missing —
-    and the read never fails.  (`k ∉ scratchOf pre`: the set in progress may own temp files; a
+    and the read never fails.  (`k ∉ dirtyOf pre`: histories may chain a process kill and a later
+    power loss; the key of a set that a kill interrupted is unspecified until a set of it completes.)  (`k ∉ scratchOf pre`: the set in progress may own temp files; a
     well-formed set has removed them durably by the time it returns.) -/
 theorem crash_safety (v : Variant) (tr : List Op) (hwf : WF v tr = true)
     (pre suf : List Op) (htr : tr = pre ++ suf) (c : Image) (hc : c ∈ crashAfter v pre) :
     (∀ k val, lastCompleted pre k = some val → inProgress pre ≠ some k → k ∉ scratchOf pre →
-      recover c k = some val) ∧
-    (∀ k, inProgress pre ≠ some k → k ∉ scratchOf pre → lastCompleted pre k = none →
+      k ∉ dirtyOf pre → recover c k = some val) ∧
+    (∀ k, inProgress pre ≠ some k → k ∉ scratchOf pre → k ∉ dirtyOf pre → lastCompleted pre k = none →
       recover c k = none) := by
   constructor
-  · intro k val h1 h2 h3
-    rw [crash_safety_core v tr pre suf htr hwf c hc k h2 h3, h1]
-  · intro k h2 h3 h1
-    rw [crash_safety_core v tr pre suf htr hwf c hc k h2 h3, h1]
+  · intro k val h1 h2 h3 h4
+    rw [crash_safety_core v tr pre suf htr hwf c hc k h2 h3 h4, h1]
+  · intro k h2 h3 h4 h1
+    rw [crash_safety_core v tr pre suf htr hwf c hc k h2 h3 h4, h1]
 
 /-- between sets there are no scratch paths -/
 theorem scratchOf_idle (v : Variant) (pre suf : List Op) (hwf : WF v (pre ++ suf) = true)
@@ -600,7 +622,7 @@ theorem scratchOf_idle (v : Variant) (pre suf : List Op) (hwf : WF v (pre ++ suf
   have hpre : (runWF v init pre).isSome = true := WF_prefix v pre suf hwf
   obtain ⟨s, hs⟩ := Option.isSome_iff_exists.mp hpre
   have hrun : s = run v init pre := runWF_eq_run v pre init s hs
-  have hg : ghost {} pre = ⟨s.cur, s.done, s.scratch⟩ := by
+  have hg : ghost {} pre = ⟨s.cur, s.done, s.scratch, s.dirty⟩ := by
     rw [hrun]; exact ghost_run v pre init
   have hcur : s.cur = none := by simpa [inProgress, hg] using hidle
   simp only [scratchOf, hg]
@@ -611,12 +633,12 @@ theorem scratchOf_idle (v : Variant) (pre suf : List Op) (hwf : WF v (pre ++ suf
     crash image reads until another set of the same key begins -/
 theorem completed_set_is_durable (v : Variant) (tr : List Op) (hwf : WF v tr = true)
     (pre suf : List Op) (htr : tr = pre ++ suf) (k : Path) (val : Bytes)
-    (hdone : lastCompleted pre k = some val) (hidle : inProgress pre = none) :
+    (hdone : lastCompleted pre k = some val) (hidle : inProgress pre = none) (hclean : k ∉ dirtyOf pre) :
     ∀ c ∈ crashAfter v pre, recover c k = some val := by
   intro c hc
   subst htr
   exact (crash_safety v _ hwf pre suf rfl c hc).1 k val hdone (by simp [hidle])
-    (by simp [scratchOf_idle v pre suf hwf hidle])
+    (by simp [scratchOf_idle v pre suf hwf hidle]) hclean
 
 /-! ### non-vacuity and witnesses -/
 
@@ -695,5 +717,48 @@ theorem rename_with_dir_fsync_wf :
     (∀ n ∈ List.range 9, ∀ c ∈ crashAfter .strict (demoRenameGood.take (8 + n)),
       recover c [1] = some [10] ∨ recover c [1] = some [20]) ∧
     ∀ c ∈ crashAfter .strict demoRenameGood, recover c [1] = some [20] := by decide
+
+/-! ### histories that chain a process kill and a later power loss -/
+
+/-- key `1` is set to `[10]`; a second set (to `[20]`) is killed between the write and the fsync;
+    a new process then "sets" `[20]` again WITHOUT touching the file system (it found the bytes in
+    its cache) and returns -/
+def demoKillBad : List Op :=
+  [.begin [1] [10], .creatTrunc [1], .write [1] [10], .fsyncFile [1], .close [1], .fsyncDir [], .ret,
+   .begin [1] [20], .creatTrunc [1], .write [1] [20], .kill,
+   .begin [1] [20], .ret]
+
+/-- the same history with the second process rewriting and syncing the file -/
+def demoKillGood : List Op :=
+  [.begin [1] [10], .creatTrunc [1], .write [1] [10], .fsyncFile [1], .close [1], .fsyncDir [], .ret,
+   .begin [1] [20], .creatTrunc [1], .write [1] [20], .kill,
+   .begin [1] [20], .creatTrunc [1], .write [1] [20], .fsyncFile [1], .close [1], .ret]
+
+/-- a set that returns on the strength of unsynced bytes left by a killed writer is not
+    well-formed, and a later power loss makes the completed key read its previous value -/
+theorem set_skipped_after_kill_is_not_durable :
+    WF .strict demoKillBad = false ∧ WF .journalled demoKillBad = false ∧
+    WF .strict (demoKillBad.take 12) = true ∧
+    inProgress demoKillBad = none ∧ dirtyOf demoKillBad = [] ∧ lastCompleted demoKillBad [1] = some [20] ∧
+    ∃ c ∈ crashAfter .strict demoKillBad, recover c [1] = some [10] := by decide
+
+/-- after the kill the interrupted key is `dirty` (unspecified) until a set of it completes; the
+    rewriting history is well-formed and ends with the key durable -/
+theorem kill_then_rewrite_wf :
+    WF .strict demoKillGood = true ∧ dirtyOf (demoKillGood.take 11) = [[1]] ∧ dirtyOf demoKillGood = [] ∧
+    ∀ c ∈ crashAfter .strict demoKillGood, recover c [1] = some [20] := by decide
+
+/-- a store opened on a fresh path: the root chain `7/8` is created when the store is opened and
+    never synced (only the key's own directory is) — the set returns, the trace is not well-formed,
+    and a crash loses the whole store -/
+theorem eager_root_without_fsync_loses_store :
+    WF .strict [.mkdir [7], .mkdir [7, 8], .begin [7, 8, 1] [10], .creatTrunc [7, 8, 1], .write [7, 8, 1] [10],
+                .fsyncFile [7, 8, 1], .close [7, 8, 1], .fsyncDir [7, 8], .ret] = false ∧
+    (∃ c ∈ crashAfter .strict [.mkdir [7], .mkdir [7, 8], .begin [7, 8, 1] [10], .creatTrunc [7, 8, 1],
+                .write [7, 8, 1] [10], .fsyncFile [7, 8, 1], .close [7, 8, 1], .fsyncDir [7, 8], .ret],
+        recover c [7, 8, 1] = none) ∧
+    WF .strict [.mkdir [7], .mkdir [7, 8], .begin [7, 8, 1] [10], .creatTrunc [7, 8, 1], .write [7, 8, 1] [10],
+                .fsyncFile [7, 8, 1], .close [7, 8, 1], .fsyncDir [7, 8], .fsyncDir [7], .fsyncDir [], .ret] = true := by
+  decide
 
 end Klong.C17
